@@ -110,9 +110,9 @@ CLAIMED = {
         technique='Lean 4 component theorems + whole-scan identity theorem on the port + correspondence + identity search',
         design="§4 C07"),
     "C08": dict(
-        text='Proved for every bundle (2^40): every grapheme of cardinals.json is well formed; set_feat for every feature of the table and both polarities, adding/removing any place (sub-)node and [-place] - the only ways parser and interpreter modify a bundle - preserve SegWF (defined bits only, place not Some(0), nothing stored under an absent sub-node). PARTIAL: the word-level invariants (>=1 syllable, no empty syllable, tone shape) over rule sequences are decided by c08-spec (Word.WF on every intermediate word) and the correspondence; they are false on the pinned tree for boundaries inserted/moved at a word edge, empty structures and whole-word deletion (known findings D8a-D8d).',
+        text='Proved for every bundle (2^40): every grapheme of cardinals.json is well formed; set_feat for every feature of the table and both polarities, adding/removing any place (sub-)node and [-place] - the only ways parser and interpreter modify a bundle - preserve SegWF (defined bits only, place not Some(0), nothing stored under an absent sub-node). End to end (Props/C08Scan): these single edits composed through the node and feature loops, through every copy of a long segment, through one substitution step and through the WHOLE SCAN of a rule `X > [±features, ±nodes] / any environment` (binary modifiers; induction on the scan of the interpreter port): if every bundle of the word is well formed, so is every bundle of every word the rule returns, and the shape is unchanged (binary_feature_subrule_wf). PARTIAL: alpha-carried node values, and the word-level invariants (>=1 syllable, no empty syllable, tone shape) over rule sequences are decided by c08-spec (Word.WF on every intermediate word) and the correspondence; they are false on the pinned tree for boundaries inserted/moved at a word edge, empty structures and whole-word deletion (known findings D8a-D8d).',
         note='Trusted: Lean kernel, standard axioms (+ bv_decide certificates where the bit layer is used); the hand port of subrule.rs/rule.rs/syll.rs (Model/Interp), tied to the code on every run by the interp-ops correspondence (identical outcome class and word on ~27k generated cases quick / 400k thorough, release profile); generators and labels of the search.',
-        technique='Lean 4 bundle well-formedness preservation theorems + correspondence + invariant search on every intermediate word',
+        technique='Lean 4 bundle well-formedness theorems (single edits and whole scan) + correspondence + invariant search on every intermediate word',
         design="§4 C08"),
     "C12": dict(
         text="Proved: the group-letter tables of the rule parser AND the alias parser, re-read from the source on every run, equal the manual's table (as matrices); Rule::apply is the left fold of SubRule::apply over the sub-rules and unbalanced lists are rejected (condensed rules = their sub-rules in sequence, by the port's definition, itself compared with the code). PARTIAL: `_,X`, optionals and `&` vs variables are decided by c12-spec (shorthand vs mechanically produced expansion, both on the implementation) - the optional's retry loop is a known finding (D12).",
